@@ -115,9 +115,7 @@ def diff_items(exp, obs, where, depth=0):
 def match(exp, obs, step=None, rec=None, prev=None):
     if exp.get("ret") not in (None, "any") and obs.get("ret") != exp["ret"]:
         return "ret: expected %s, observed %s" % (exp["ret"], obs.get("ret"))
-    if exp.get("ret") != "ok":
-        return None
-    if "lay" in exp:
+    if isinstance(exp.get("lay"), dict):
         for k, v in exp["lay"].items():
             if (obs.get("lay") or {}).get(k) != v:
                 return "lay.%s: expected '%s', observed '%s'" % (k, unrle(v), unrle((obs.get("lay") or {}).get(k)))
@@ -127,21 +125,23 @@ def match(exp, obs, step=None, rec=None, prev=None):
             return d[0]
     if "graphs" in exp and obs.get("graphs") != exp["graphs"]:
         return "graphs: expected %s, observed %s" % ([unrle(g) for g in exp["graphs"]], [unrle(g) for g in obs.get("graphs") or []])
-    if "rep" in exp and exp["rep"] != "any" and obs.get("rep") != exp["rep"]:
+    if "rep" in exp and exp["rep"] not in ("any", -1) and obs.get("rep") != exp["rep"]:
         return "rep: expected %s reports, observed %s" % (exp["rep"], obs.get("rep"))
     return None
 
 
 def long_value(beh):
     """the document holds a value of 250 bytes or more (representation limit of the small text metatype)"""
-    txt = beh[0]["arg"].get("text") or []
-    return any(n >= 250 for n in txt[1::2])
+    return any(n >= 250 for st in beh for n in ((st.get("arg") or {}).get("text") or [])[1::2])
 
 
 def signature(mm, beh):
     """action, what differed first (property name / structure part), kind of the item, discriminating input class"""
     st = mm["step"]
     a = st["a"]
+    if a in ("gset", "gbind", "reload", "reset"):        # a step of a history: which kinds of steps came before
+        prior = [x["a"] for x in beh[:mm["i"]]]
+        a += ":after-" + "-".join(sorted(set(prior))) + (":refused" if (st.get("exp") or {}).get("ret") == "refused" else "")
     if a == "copy":
         a += ":" + str((st.get("arg") or {}).get("mode"))
     why = mm["why"]
@@ -271,45 +271,82 @@ def rand_deco(rng):
             "b3": rng.choice(["none", "sp", "mix"]), "q": rng.choice([0, 0, 0, 34, 39]), "hs": rng.choice(["tight", "spaced", "wide"])}
 
 
-def gen_docs(ck, n, nitems):
-    """Random item sequences (input shaping only).  Whether an item can be written / is described at all is decided by
-    the guards of the specification's actions: an item whose guard is false is skipped by Trace_LayoutTree."""
-    rng = ck.rng
-    kwords = ["axis"] * 4 + ["xaxis", "yaxis", "zaxis"] + ["world"] * 4 + ["graph"] * 4 + ["text"] * 2 + ["line"] * 2 + ["legend", "Axis", "worlds"]
+def gen_doc(rng, nitems, used, graphs=4):
+    """one description: random item sequence (input shaping only)"""
+    kwords = ["axis"] * 4 + ["xaxis", "yaxis", "zaxis"] + ["world"] * 4 + ["graph"] * graphs + ["text"] * 2 + ["line"] * 2 + ["legend", "Axis", "worlds"]
     member_words = ["axis"] * 4 + ["xaxis"] + ["world"] * 4 + ["text", "line", "legend", "graph"]
     inames = ["a", "b", "w", "a1", "ax", "wld"] * 3 + ["x_1", "A", "long name", "q-r", "g", "t"]
-    docs = []
-    for _ in range(n):
-        items, frames, used = [], ["layout"], {}
-        for _ in range(rng.randrange(4, nitems + 1)):
-            r = rng.random()
-            cur = frames[-1]
-            group = cur in ("layout", "graph")
-            p_opt = 0.25 if cur == "layout" else (0.45 if cur == "graph" else 0.7)
-            if r < p_opt:
-                nm = rng.choice(ONAMES.get(cur, ONAMES["axis"]))
-                if cur == "graph" and rng.random() < 0.5:
-                    nm = rng.choice(["axes", "worlds"])
-                if not group and rng.random() < 0.08:
-                    items.append({"k": "reset", "name": codes(nm), "v": {"f": "none", "n": [], "c": [], "sty": ""}, "d": rand_deco(rng)})
-                else:
-                    pool = used.get("world" if nm == "worlds" else "axis", [])
-                    items.append({"k": "opt", "name": codes(nm), "v": rand_value(rng, nm, pool), "d": rand_deco(rng)})
-            elif group and (r < 0.9 or len(frames) == 1):
-                kw = rng.choice(kwords if cur == "layout" else member_words)
-                nm = rng.choice(inames)
-                par = []
-                fam = "axis" if kw.endswith("axis") else kw
-                if used.get(fam) and rng.random() < 0.4:
-                    par = [codes(rng.choice(used[fam])) for _ in range(rng.choice([1, 1, 1, 2]))]
-                items.append({"k": "open", "h": {"kw": codes(kw), "name": codes(nm), "par": par}, "d": rand_deco(rng)})
-                used.setdefault(fam, []).append(nm)
-                frames.append(fam if fam in ONAMES else "other")
-            elif len(frames) > 1:
-                items.append({"k": "close", "d": rand_deco(rng)})
-                frames.pop()
-        docs.append({"a": "doc", "arg": {"items": items, "probe": rng.choice(["none", "dump", "clone", "null", "empty", "props", "cload", "inst"])}})
-    return docs
+    items, frames, tops = [], ["layout"], []
+    for _ in range(rng.randrange(4, nitems + 1)):
+        r = rng.random()
+        cur = frames[-1]
+        group = cur in ("layout", "graph")
+        p_opt = 0.25 if cur == "layout" else (0.45 if cur == "graph" else 0.7)
+        if r < p_opt:
+            nm = rng.choice(ONAMES.get(cur, ONAMES["axis"]))
+            if cur == "graph" and rng.random() < 0.5:
+                nm = rng.choice(["axes", "worlds"])
+            if not group and rng.random() < 0.08:
+                items.append({"k": "reset", "name": codes(nm), "v": {"f": "none", "n": [], "c": [], "sty": ""}, "d": rand_deco(rng)})
+            else:
+                pool = used.get("world" if nm == "worlds" else "axis", [])
+                items.append({"k": "opt", "name": codes(nm), "v": rand_value(rng, nm, pool), "d": rand_deco(rng)})
+        elif group and (r < 0.9 or len(frames) == 1):
+            kw = rng.choice(kwords if cur == "layout" else member_words)
+            nm = rng.choice(inames)
+            par = []
+            fam = "axis" if kw.endswith("axis") else kw
+            if used.get(fam) and rng.random() < 0.4:
+                par = [codes(rng.choice(used[fam])) for _ in range(rng.choice([1, 1, 1, 2]))]
+            items.append({"k": "open", "h": {"kw": codes(kw), "name": codes(nm), "par": par}, "d": rand_deco(rng)})
+            used.setdefault(fam, []).append(nm)
+            if cur == "layout":
+                tops.append(fam)
+            frames.append(fam if fam in ONAMES else "other")
+        elif len(frames) > 1:
+            items.append({"k": "close", "d": rand_deco(rng)})
+            frames.pop()
+    return items, tops
+
+
+def gen_ops(rng, tops, used, nmax):
+    """operations on the loaded layout: graph properties from text, binds (indices of top-level sections written as graphs,
+    sometimes any index: whether it is a graph of the loaded layout is decided by the specification)"""
+    gidx = [i for i, f in enumerate(tops) if f == "graph"] or [0]
+    ops = []
+    for _ in range(rng.randrange(0, nmax + 1)):
+        g = rng.choice(gidx) if rng.random() < 0.6 else rng.randrange(0, max(2, len(tops)))
+        if rng.random() < 0.4:
+            ops.append({"k": "gbind", "g": g})
+        else:
+            nm = rng.choice(["axes", "axes", "worlds", "worlds"] + ONAMES["graph"])
+            pool = used.get("world" if nm == "worlds" else "axis", [])
+            v = rand_value(rng, nm, pool)
+            if v["f"] == "rle" and sum(v["c"][1::2]) > 2000:
+                v = {"f": "txt", "n": [], "c": codes("abc"), "sty": ""}
+            ops.append({"k": "gset", "g": g, "name": codes(nm), "v": v})
+    return ops
+
+
+def gen_docs(ck, n, nitems):
+    """Histories of one layout object: one description with a probe, or several descriptions loaded one after the other
+    (with or without reset) and operations on the loaded layout in between.  Whether an item / operation can be
+    written / is described at all is decided by the guards of the specification's actions (false guard = skipped)."""
+    rng = ck.rng
+    hists = []
+    for h in range(n):
+        used = {}
+        if h % 2 == 0:
+            items, tops = gen_doc(rng, nitems, used)
+            hists.append({"a": "hist", "arg": {"docs": [{"items": items, "ops": [], "reset": False}],
+                                               "probe": rng.choice(["none", "dump", "clone", "null", "empty", "props", "cload", "inst"])}})
+            continue
+        docs = []
+        for _ in range(rng.choice([1, 2, 2, 3])):
+            items, tops = gen_doc(rng, max(6, nitems * 2 // 3), used, graphs=10)      # same name pool: later descriptions reuse names
+            docs.append({"items": items, "ops": gen_ops(rng, tops, used, 7), "reset": rng.random() < 0.3})
+        hists.append({"a": "hist", "arg": {"docs": docs, "probe": "none"}})
+    return hists
 
 
 def render_docs(docs, tag):
@@ -436,7 +473,7 @@ def run_part(ck, tier):
         rs = by.get(k) or []
         if k in bad or len(rs) < len(behs2[k]) or any(r.get("a") in ("Crash", "Hang", "Garbled") for r in rs):
             continue
-        events.append({"a": "doc", "arg": dict(doc["arg"], text=behs2[k][0]["arg"]["text"]),
+        events.append({"a": "hist", "arg": dict(doc["arg"], texts=[(st.get("arg") or {}).get("text") or [] for st in behs2[k]]),
                        "obs": [r.get("obs") or {} for r in rs[:len(behs2[k])]]})
     validated = 0
     if events:
